@@ -1,0 +1,43 @@
+//go:build verif
+
+package store
+
+// VerifLayoutInfo describes the internal memory layout of a store. It is
+// read-only instrumentation for the verification harness in /verif and is only
+// compiled with the build tag "verif".
+type VerifLayoutInfo struct {
+	Kind         string // dense, collapsing_lowest, collapsing_highest, sparse, buffered_paginated, unknown
+	ArrayLen     int    // dense kinds: len(bins)
+	ArrayOffset  int    // dense kinds: offset
+	Collapsed    bool   // collapsing kinds: isCollapsed
+	MaxNumBins   int    // collapsing kinds
+	BufferLen    int    // paginated: len(buffer)
+	NumPages     int    // paginated: number of allocated (non-empty) pages
+	PagesLen     int    // paginated: len(pages)
+	MinPageIndex int    // paginated
+	TriggerLen   int    // paginated: bufferCompactionTriggerLen
+}
+
+// VerifLayout returns the internal layout of the provided store.
+func VerifLayout(s Store) VerifLayoutInfo {
+	switch st := s.(type) {
+	case *DenseStore:
+		return VerifLayoutInfo{Kind: "dense", ArrayLen: len(st.bins), ArrayOffset: st.offset}
+	case *CollapsingLowestDenseStore:
+		return VerifLayoutInfo{Kind: "collapsing_lowest", ArrayLen: len(st.bins), ArrayOffset: st.offset, Collapsed: st.isCollapsed, MaxNumBins: st.maxNumBins}
+	case *CollapsingHighestDenseStore:
+		return VerifLayoutInfo{Kind: "collapsing_highest", ArrayLen: len(st.bins), ArrayOffset: st.offset, Collapsed: st.isCollapsed, MaxNumBins: st.maxNumBins}
+	case *SparseStore:
+		return VerifLayoutInfo{Kind: "sparse"}
+	case *BufferedPaginatedStore:
+		numPages := 0
+		for _, p := range st.pages {
+			if len(p) > 0 {
+				numPages++
+			}
+		}
+		return VerifLayoutInfo{Kind: "buffered_paginated", BufferLen: len(st.buffer), NumPages: numPages, PagesLen: len(st.pages), MinPageIndex: st.minPageIndex, TriggerLen: st.bufferCompactionTriggerLen}
+	default:
+		return VerifLayoutInfo{Kind: "unknown"}
+	}
+}
